@@ -164,3 +164,33 @@ Example wf_answer_applies_nonvacuous :
   /\ wf_answer ex_query ([(VTy General, 1)], [Node (HAdt 1) [Var STy 0 0]; Var STy 0 0]) = false
   /\ wf_answer ex_query ([], [Node (HAdt 1) [Var STy 0 0]; Node (HPlaceholder 1 0) []]) = false.
 Proof. repeat split; vm_compute; reflexivity. Qed.
+
+(** ** Canonicalization produces well-formed queries *)
+
+(** const types are [usize] (ChalkIr lowering) *)
+Fixpoint consts_usize (t : tm) : bool :=
+  match t with
+  | Var _ _ _ | CVar _ _ _ => true
+  | Node h cs =>
+      if const_head h then match cs with [c] => tm_eqb c usize_ty | _ => false end
+      else forallb consts_usize cs
+  end.
+
+Lemma closed_o_closed_f : forall t ks k, consts_usize t = true -> closed_o ks k t = true -> closed_f ks k t = true.
+Proof.
+  induction t as [s d i | d i ct _ | h cs IH] using tm_ind'; intros ks k Hu Hc; cbn [closed_o closed_f consts_usize] in *; try assumption.
+  destruct (infer_of h) as [[v vk] |] eqn:Ei; [discriminate |].
+  destruct (const_head h) eqn:Ec.
+  - destruct cs as [| c [| c' cs']]; try discriminate. apply tm_eqb_eq in Hu. subst c. reflexivity.
+  - rewrite forallb_forall in *. intros x Hx. rewrite Forall_forall in IH. apply IH; [assumption | apply Hu | apply Hc]; assumption.
+Qed.
+
+(** a canonicalized value (with [usize] const types) together with its binders is a closed query:
+    [wf_answer_applies] applies to every query produced by [canonicalize] *)
+Lemma canon_query_wf_lemma : forall fuel T t bs v fr r n,
+  canonicalize fuel T t = Done ((bs, v), fr) -> resolve fuel T 0 t = Done r -> kinds_consistent (occs r) ->
+  consts_usize v = true -> wf_query (n, (bs, v)) = true.
+Proof.
+  intros fuel T t bs v fr r n Hc Hr Hk Hu. destruct (canon_closed_lemma _ _ _ _ _ _ _ Hc Hr Hk) as [Hcl _].
+  unfold wf_query, q_binders, q_value. cbn [fst snd]. apply closed_o_closed_f; assumption.
+Qed.
